@@ -108,7 +108,7 @@ theorem next_spec {n : Nat} {b : Bits} {m : Spec} (h : Abs n b m) (hcap : Cap n)
         next b idx = .ok (some j, j + 1)) ∨
     ((∀ y, idx ≤ y → y < 64 * n → m.mem y = false) ∧ ∃ i, next b idx = .ok (none, i)) := by
   obtain ⟨hw, hb⟩ := abs_iff.1 h
-  rcases Rlib.Bitset.next_spec hw hcap idx hidx with ⟨j, j1, j2, j3, j4, e⟩ | ⟨hn, i, e⟩
+  rcases Rlib.Bitset.next_spec hw hcap idx hidx with ⟨j, j1, j2, j3, j4, e⟩ | ⟨hn, i, e, _, _⟩
   · exact .inl ⟨j, j1, j2, by rw [← hb j j2]; exact j3, fun y a c => by rw [← hb y (by omega)]; exact j4 y a c, e⟩
   · exact .inr ⟨fun y a c => by rw [← hb y c]; exact hn y a c, i, e⟩
 
@@ -117,6 +117,13 @@ theorem next_spec {n : Nat} {b : Bits} {m : Spec} (h : Abs n b m) (hcap : Cap n)
     and bit 63 of the last word included. -/
 theorem iter_spec {n : Nat} {b : Bits} {m : Spec} (h : Abs n b m) (hcap : Cap n) :
     iterBits b = .ok ((List.range (64 * n)).filter m.mem) := iter_abs h hcap
+
+/-- The iterator used as an `Iterator`: after `k` calls of `next` (for every `k`, also past the end)
+    the iterator yields exactly the members above the `k`-th one, ascending — the list of all members
+    with its first `k` entries dropped.  `count()`, `last()`, `nth(j)`, `peek()`, `skip(k)` on a
+    partially consumed iterator are functions of this list (`showProbe`). -/
+theorem iter_remaining {n : Nat} {b : Bits} {m : Spec} (h : Abs n b m) (hcap : Cap n) (k : Nat) :
+    restAfter b k = .ok (((List.range (64 * n)).filter m.mem).drop k) := restAfter_abs h hcap k
 
 /-- The collected iterator is strictly ascending (so no index is produced twice). -/
 theorem iter_ascending {n : Nat} {b : Bits} {m : Spec} (h : Abs n b m) (hcap : Cap n) :
@@ -210,6 +217,8 @@ example : iterBits [1, 0, 0] = .ok [0] := by decide +kernel
 example : iterBits [2 ^ 63 + 1, 1] = .ok [0, 63, 64] := by decide +kernel
 example : next [2 ^ 63, 1] 64 = .ok (some 64, 65) := by decide +kernel
 example : next [2 ^ 63, 1] 65 = .ok (none, 128) := by decide +kernel
+example : restAfter [2 ^ 3 + 2 ^ 10, 2 ^ 6] 1 = .ok [10, 70] := by decide +kernel     -- {3,10,70}.skip(1)
+example : restAfter [2 ^ 63, 0, 2 ^ 63] 2 = .ok [] ∧ restAfter [2 ^ 63, 0, 2 ^ 63] 5 = .ok [] := by decide +kernel
 example : beq [2 ^ 63, 1] [2 ^ 63, 1] = true ∧ beq [2 ^ 63, 1] [2 ^ 63, 0] = false := by decide +kernel
 example : display [5] = .ok "1010000000000000000000000000000000000000000000000000000000000000" := by decide +kernel
 -- a history in the domain of `history_observed` (N = 2, three registers, boundaries 63/64/127)
